@@ -47,6 +47,7 @@ type Engine struct {
 	inputVars  []NamedVal
 	methodIDs  map[string]int
 	initOK     map[*ssa.Package]bool
+	initTainted map[*ssa.Global]bool // written by an init function that was not executed: no constant facts
 	dispatch   map[string]func(p *Path, fr *Frame, c *ssa.CallCommon, recv Value, args []Value, dst ssa.Value, pos token.Pos) []*Path
 }
 
@@ -358,7 +359,7 @@ func (e *Engine) loadGlobal(st *State, g *ssa.Global) Value {
 		return v
 	}
 	var v Value
-	if e.cs.ConstGl[globKey(g)] && !e.inInit {
+	if e.cs.ConstGl[globKey(g)] && !e.inInit && !e.taintedByInit(g) {
 		is := e.initState(g.Pkg)
 		if iv, ok := is.Globs[g]; ok && e.initOK[g.Pkg] {
 			v = iv
@@ -400,8 +401,18 @@ func (e *Engine) loadGlobal(st *State, g *ssa.Global) Value {
 }
 
 // importConstGlobal copies the initialiser facts of an aggregate constant global into st (once).
+// taintedByInit: the package initialiser was run and an init function that could not be executed
+// mentions g.
+func (e *Engine) taintedByInit(g *ssa.Global) bool {
+	e.initState(g.Pkg)
+	return e.initTainted[g]
+}
+
 func (e *Engine) importConstGlobal(st *State, g *ssa.Global) {
 	if e.inInit || !e.cs.ConstGl[globKey(g)] {
+		return
+	}
+	if e.taintedByInit(g) {
 		return
 	}
 	if _, done := st.Globs[g]; done {
